@@ -599,6 +599,23 @@ func (e *SpecEnv) callExpr(n *ast.CallExpr) SVal {
 			var r *Term
 			if len(n.Args) == 4 {
 				lo, hi := e.eval(n.Args[1]).T, e.eval(n.Args[2]).T
+				if lo.IsInt() && hi.IsInt() && hi.Int64()-lo.Int64() <= 32 {
+					// small literal range: expand
+					var parts []*Term
+					for k := lo.Int64(); k < hi.Int64(); k++ {
+						e.vars[name] = SVal{IntLit(k), tyInt}
+						parts = append(parts, e.evalBool(n.Args[3]))
+					}
+					if had {
+						e.vars[name] = saved
+					} else {
+						delete(e.vars, name)
+					}
+					if id.Name == "forall" {
+						return SVal{And(parts...), tyBool}
+					}
+					return SVal{Or(parts...), tyBool}
+				}
 				body := e.evalBool(n.Args[3])
 				rng := And(Le(lo, bv), Lt(bv, hi))
 				if id.Name == "forall" {
